@@ -98,6 +98,8 @@ class World:
         if t["k"] == "list":
             if self.mode == 1 and mix(h, 0) % 16 == 7:
                 return 5
+            if self.mode == 1 and mix(h, 0) % 16 == 8:
+                return "ab"             # a string at a list position is NOT iterated
             n = mix(h, 1) % 4
             items = [self.gen(mix(h, 2 + i), t["t"]) for i in range(n)]
             if mix(h, 9) % 16 == 9:
@@ -204,20 +206,93 @@ def make_obj(typename, style):
     return {"__typename__": typename}
 
 
-def _lazy_items(items, msg, style):
+class IterOnly(object):
+    """iterable through `__iter__` only (no `__len__`, no `__getitem__`); optionally raising ResolverError at the end"""
+
+    def __init__(self, items, msg=None):
+        self._items, self._msg = items, msg
+
+    def __iter__(self):
+        for x in self._items:
+            yield x
+        if self._msg is not None:
+            raise werr_class()(self._msg)
+
+
+class SeqOnly(object):
+    """iterable through the SEQUENCE PROTOCOL only (`__len__` + `__getitem__`, no `__iter__`: e.g. a lazy result page);
+    optionally raising ResolverError instead of IndexError after the last item"""
+
+    def __init__(self, items, msg=None):
+        self._items, self._msg = items, msg
+
+    def __len__(self):
+        return len(self._items)
+
+    def __getitem__(self, i):
+        if isinstance(i, int) and 0 <= i < len(self._items):
+            return self._items[i]
+        if self._msg is not None and i == len(self._items):
+            raise werr_class()(self._msg)
+        raise IndexError(i)
+
+
+LIST_FLAVOURS = ("list", "tuple", "generator", "__iter__", "__getitem__+__len__", "dict-values", "deque", "frozenset<=1",
+                 "range-if-equal", "dict-keys-if-hashable")
+
+
+def _gen(items, msg):
     for x in items:
-        yield raw_to_py(x, style)
-    raise werr_class()(msg)
+        yield x
+    if msg is not None:
+        raise werr_class()(msg)
 
 
-def raw_to_py(raw, style=0):
-    """raw world value -> the Python value a resolver returns; `style` picks the Python representation of objects"""
+def make_iterable(items, salt, msg=None):
+    """the runtime value of a list position: every iterable flavour completes to the response of the equivalent list;
+    with `msg`: yields the items, then raises ResolverError"""
+    import collections
+    k = mix(salt, 11) % len(LIST_FLAVOURS)
+    if msg is not None:
+        return [_gen, IterOnly, SeqOnly][k % 3](items, msg)
+    if k == 1:
+        return tuple(items)
+    if k == 2:
+        return _gen(items, None)
+    if k == 3:
+        return IterOnly(items)
+    if k == 4:
+        return SeqOnly(items)
+    if k == 5:
+        return dict(enumerate(items)).values()
+    if k == 6:
+        return collections.deque(items)
+    if k == 7 and len(items) <= 1:
+        try:
+            return frozenset(items)
+        except TypeError:
+            return list(items)
+    if k == 8 and items == list(range(len(items))) and not any(isinstance(x, bool) for x in items):
+        return range(len(items))
+    if k == 9:
+        try:
+            d = dict((x, None) for x in items)
+            if len(d) == len(items) and not any(isinstance(x, (bool, float)) for x in items):
+                return d.keys()
+        except TypeError:
+            pass
+    return list(items)
+
+
+def raw_to_py(raw, style=0, salt=0):
+    """raw world value -> the Python value a resolver returns; `style` picks the Python representation of objects,
+    `salt` (a hash of world seed and response path) the iterable flavour of list values"""
     if isinstance(raw, tuple):
         if raw[0] == "list":
-            return [raw_to_py(x, style) for x in raw[1]]
+            return make_iterable([raw_to_py(x, style, mix(salt, 20 + i)) for i, x in enumerate(raw[1])], salt)
         if raw[0] == "raise":
             if raw[3] == "list":
-                return _lazy_items(raw[1], raw[2], style)
+                return make_iterable([raw_to_py(x, style, mix(salt, 20 + i)) for i, x in enumerate(raw[1])], salt, raw[2])
             return RaisingTypename(raw[2])
         return make_obj(raw[1], style)
     if isinstance(raw, dict) and "$float" in raw:
@@ -267,11 +342,23 @@ def install_world(schema, holder):
             raise WorldError("undeclared keyword arguments %s for %s.%s" % (sorted(set(args) - declared), info.parent_type.name, info.field_definition.name))
         o = w.outcome(info.parent_type.name, info.field_definition.name, ty_of(info.field_definition.type),
                       info.path, canon_args(args))
+        salt = fnv("%d|%s" % (w.seed, "/".join(str(p) for p in info.path)))
         if o[0] == "err":
-            raise WErr(o[1], extensions=o[2])
+            # the error object may arrive with `path` / `nodes` ALREADY set (forwarded from upstream): the response
+            # carries the field's response path all the same
+            k = mix(salt, 12) % 6
+            preset = {0: None, 1: ["upstream", 0], 2: list(info.path), 3: [], 4: ["x"], 5: None}[k]
+            # pre-set nodes: the field's first node, or its LAST one (add_error keeps nodes that are already set)
+            kn = mix(salt, 13) % 4
+            nodes = {0: None, 1: [info.nodes[0]], 2: [info.nodes[-1]], 3: None}[kn]
+            err = WErr(o[1], nodes=nodes, path=preset, extensions=o[2])
+            if nodes is not None:
+                err._preset_locs = [n.loc[0] for n in nodes if n.loc]
+                err._first_loc = info.nodes[0].loc[0] if info.nodes[0].loc else None
+            raise err
         if o[0] == "boom":
             raise WorldError("unexpected")
-        return raw_to_py(o[1], w.seed % len(OBJ_STYLES))
+        return raw_to_py(o[1], w.seed % len(OBJ_STYLES), salt)
 
     schema.default_resolver = resolver
     return resolver
@@ -436,7 +523,15 @@ def canon_error(e):
     locs = [n.loc[0] for n in (getattr(e, "nodes", None) or []) if getattr(n, "loc", None)]
     path = list(e.path) if getattr(e, "path", None) is not None else None
     if getattr(e, "from_world", False):
-        return {"kind": "resolver", "path": path, "locs": locs, "msg": e.message,
+        kind = "resolver"
+        if getattr(e, "_preset_locs", None) is not None:
+            # the resolver raised the error with `nodes` already set: they are kept; canonicalised to the field's node,
+            # which is what the model records
+            if locs == e._preset_locs:
+                locs = [e._first_loc] if e._first_loc is not None else locs
+            else:
+                kind = "resolver:preset-nodes-not-kept"
+        return {"kind": kind, "path": path, "locs": locs, "msg": e.message,
                 "ext": canon_value(dict(e.extensions)) if e.extensions else None}
     if isinstance(e, CoercionError):
         return {"kind": "coercion", "path": path, "locs": locs, "msg": None, "ext": None}
